@@ -49,6 +49,12 @@ def jobs(tier):
                            union_struct=True, kind="bounded", canary=(a == 8 and live == 4), functions=fns,
                            bound="parameter slots: allocation %d (concrete), slots >= %d empty; kinds, holders, deleted flags, external holds symbolic; unknown chains <= 2" % (a, live),
                            timeout=(600 if tier == "quick" else 1800)))
+    import C01
+    for j in C01.jobs(tier):
+        if j.name == "param_hash.deleted_handle":       # deleted handles refused by vnacal_new_add_*, referrers keep working
+            j.name = "vnacal_new." + j.name
+            j.imported = True
+            J.append(j)
     return J
 
 
